@@ -125,7 +125,7 @@ class RepoInterp:
         inline: Optional[Iterable[str]] = None,
         may_fork: Iterable[str] = (),
         call_hook: Optional[Callable[..., Optional[V]]] = None,
-        max_depth: int = 4,
+        max_depth: int = 12,
         heap: bool = False,
     ) -> None:
         self.repo = repo
@@ -223,6 +223,8 @@ class RepoInterp:
                 return st.alloc("list", [K(x) for x in getattr(fval.v, call.func.attr)(*[a.v for a in args])])
             except Exception:
                 return None
+        if fname == "id" and len(args) == 1 and not kwargs and self.heap and not (isinstance(args[0], (U,))):
+            return self.model_id(args[0], st)
         v = platform_call(fname, fval, call, args, kwargs)
         if v is not None:
             return v
@@ -233,6 +235,62 @@ class RepoInterp:
         if callee is not None and (callee.fq in self.inline or callee.qualname in self.inline):
             return self.inline_call(callee, call, fval if isinstance(call.func, ast.Attribute) else None, args, kwargs, st)
         return None
+
+    # ---- id(): addresses are reused ------------------------------------------------------------------
+    def model_id(self, obj: V, st: State) -> V:
+        """id(x).  Within one top-level call distinct objects have distinct ids.  An object that was id()-ed during an
+        *earlier* top-level call of the history and is no longer referenced from the heap or from module-level
+        objects is dead: CPython hands its address to the next object allocated, so a different object of the
+        current call gets the same id (the scenario picks that legal schedule)."""
+        v = st.freeze(obj)
+        key = "__global__:__idlog__"
+        if key not in st.env:
+            st.env[key] = st.alloc("list", [])
+        log = st.deref(st.env[key])
+        gen_v = st.env.get("__global__:__idgen__", K(0))
+        gen = gen_v.v if isinstance(gen_v, K) else 0
+        for ent in log:
+            if ent.v[1] == v:
+                return R("id", of=v)
+        for ent in log:
+            g0, p0 = ent.v[0].v, ent.v[1]
+            if g0 < gen and not self._reachable(p0, st, st.env[key]):
+                log.append(K((K(gen), v)))
+                return R("id", of=p0)
+        log.append(K((K(gen), v)))
+        return R("id", of=v)
+
+    def _reachable(self, p: V, st: State, skip: Any) -> bool:
+        def inside(x: Any, depth: int = 0) -> bool:
+            if depth > 12:
+                return False
+            if x == p:
+                return True
+            if isinstance(x, Ref):
+                return False  # followed through the heap scan below
+            if isinstance(x, K) and isinstance(x.v, (tuple, frozenset)):
+                return any(inside(y, depth + 1) for y in x.v)
+            if isinstance(x, R):
+                if x.kind == "id":
+                    return False  # a number, not a reference
+                return any(inside(y, depth + 1) for y in x.fields.values())
+            if isinstance(x, tuple):
+                return any(inside(y, depth + 1) for y in x)
+            return False
+        for rid, o in st.heap.items():
+            if isinstance(skip, Ref) and rid == skip.id:
+                continue
+            if isinstance(o, list):
+                if any(inside(y) for y in o):
+                    return True
+            else:
+                d = o[2] if isinstance(o, tuple) else o
+                if any(inside(k) or inside(y) for k, y in d.items()):
+                    return True
+        for k, x in st.env.items():
+            if k.startswith("__global__:") and k not in ("__global__:__idlog__", "__global__:__idgen__") and inside(x):
+                return True
+        return False
 
     self_class: Any = None  # dynamic class of `self` in the scenario (method resolution starts there)
     dispatch_instances: bool = False  # method calls on R('inst', __cls__=...) records are resolved in their class
@@ -447,6 +505,8 @@ class RepoInterp:
             for k, v in carry.env.items():
                 if k.startswith("__global__:"):
                     st.env[k] = v
+        gen0 = st.env.get("__global__:__idgen__", K(0))
+        st.env["__global__:__idgen__"] = K((gen0.v if isinstance(gen0, K) else 0) + 1)  # a new top-level call of the history
         st.env.update(env)
         if body is None:
             # parameters the scenario does not bind take their declared default
@@ -583,6 +643,28 @@ def platform_call(fname: Optional[str], fval: Optional[V], call: ast.Call, args:
         if isinstance(items, (tuple, frozenset)):
             return K(frozenset(items)) if fname != "tuple" else K(tuple(items))
     return None
+
+
+def instance_containers(repo: Repo, ci: Any, known: Iterable[str] = ()) -> Dict[str, ast.AST]:
+    """attributes that __init__ (of the class or a package base) initialises to an empty mutable container - a memo,
+    a registry: scenarios give them one real heap object that lives as long as the instance"""
+    out: Dict[str, ast.AST] = {}
+    if ci is None:
+        return out
+    for c in reversed(repo.mro(ci)):
+        init = c.methods.get("__init__")
+        if init is None:
+            continue
+        for x in ast.walk(init.node):
+            tgt = val = None
+            if isinstance(x, ast.Assign) and len(x.targets) == 1:
+                tgt, val = x.targets[0], x.value
+            elif isinstance(x, ast.AnnAssign) and x.value is not None:
+                tgt, val = x.target, x.value
+            if isinstance(tgt, ast.Attribute) and isinstance(tgt.value, ast.Name) and tgt.value.id == "self" and tgt.attr not in known \
+                    and val is not None and _is_mutable_ctor(val):
+                out[tgt.attr] = val
+    return out
 
 
 def _is_mutable_ctor(e: ast.AST) -> bool:
